@@ -252,6 +252,9 @@ def _eval_single(cases):
             if any(b > n or (b == n and b % 2 == 0) for b, n in zip(case['bshape'], case['shape'])) and any(g):
                 # C14_hitmiss_template_larger_is_false
                 f.append(dict(kind='model', key=f'hitmiss-larger-not-zero:{cls}', detail=dict(got=g)))
+            if drv.get('loopok') != '1':
+                # the transliterated `slack` loop and its closed form `hmEvaluated` disagree on this image / template shape
+                f.append(dict(kind='model', key='hitmiss-loop-vs-closed-form', detail=dict(shape=case['shape'], bshape=case['bshape'])))
             if drv['model'] != drv['modelrev']:
                 f.append(dict(kind='model', key='hitmiss-order-dependence', detail=dict(a=drv['model'], b=drv['modelrev'])))
         if not np.array_equal(before, Al):
@@ -290,6 +293,9 @@ def _eval_block(case):
         model = _digits(drv['model'], n)
         spec = _digits(drv['spec'], n)
         specwhich = 'property'
+        if op == 'hitmiss' and drv.get('loopok') != '1' and len(findings) < 6:
+            findings.append(dict(kind='model', key='hitmiss-loop-vs-closed-form', detail=dict(shape=list(shape), bshape=list(bshape)),
+                                 case=dict(op=op, dtype='uint8', shape=list(shape), data=[0] * n, bshape=list(bshape), bc=list(bc), layout='C')))
         if op == 'hitmiss' and any(b % 2 == 0 for b in bshape):
             # even template sides are outside the statement: the proved closed form takes the place of the definition
             spec = _digits(drv['closed'], n)
